@@ -203,6 +203,8 @@ Qed.
 Definition prel {A B C D} (R : A -> B -> Prop) (S : C -> D -> Prop) (x : A * C) (y : B * D) : Prop :=
   R (fst x) (fst y) /\ S (snd x) (snd y).
 
+Ltac psplit := unfold prel; simpl; split.
+
 Lemma pn_vote_accepted_rel : forall k pm a b x,
   pn_rel a b -> rq k (prel pn_rel eq) (pn_vote_accepted pm a x) (pn_vote_accepted pm b x).
 Proof.
@@ -224,12 +226,12 @@ Proof.
   eapply rq_bind.
   - apply (with_period_rel k _ eq pl (vt_per x) 0 a b); auto. intros pa pb P. apply pn_vote_accepted_rel; auto.
   - intros [a2 oa] [b2 ob] [R2 E]; simpl in *. subst ob.
-    destruct oa as [th|]; [|apply rq_ok; split; auto].
+    destruct oa as [th|]; [|simpl; psplit; auto].
     pose proof (rn_update_rel pl 0 a2 b2 R2) as R3. destruct R3 as (S3 & F3 & P3).
     cbv zeta. cbn [rn_fresh rn_update] in F3 |- *.
     eapply rq_bind.
     + rewrite F3. apply rq_refl. intros; reflexivity.
-    + intros f1 f2 E; subst f2. destruct f1; apply rq_ok; split; simpl; auto.
+    + intros f1 f2 E; subst f2. destruct f1; simpl; psplit; simpl; auto.
       * split; [|split]; simpl; auto.
       * split; [|split]; auto.
 Qed.
@@ -240,7 +242,7 @@ Lemma with_period_read_rel : forall k A pl p s a b (g : periodNode -> A),
   rq k (prel rn_rel eq) (with_period pl p s a (fun pn => Ok (pn, g pn))) (with_period pl p s b (fun pn => Ok (pn, g pn))).
 Proof.
   intros k A pl p s a b g R HG. apply (with_period_rel k _ eq); auto.
-  intros pa pb P. apply rq_ok. split; simpl; auto.
+  intros pa pb P. simpl; psplit; simpl; auto.
 Qed.
 
 (* ---------- proposal tracker ---------- *)
@@ -287,7 +289,7 @@ Proof.
   rewrite <- EA.
   destruct (negb (pc_one a) && negb (pc_froze a) && negb (pc_soft a) && negb (pc_cert a) && negb _); [apply rq_panic|].
   destruct ((pc_froze a || pc_soft a || pc_cert a) && _); [apply rq_panic|].
-  apply rq_ok. split; simpl; auto.
+  simpl; psplit; simpl; auto.
   destruct R1 as (D1 & S1 & G1 & K1 & K2 & K3 & K4). repeat split; simpl; auto; apply S1.
 Qed.
 
@@ -297,7 +299,7 @@ Proof.
   intros k a b (D & (L & F & Z) & G & C1 & C2 & C3 & C4). unfold pt_checked_freeze.
   rewrite <- C2, <- C1, <- L. destruct (pc_froze a); [apply rq_panic|].
   destruct (negb (pc_one a) && negb (is_bottom (vt_val (sk_lowest (pt_freezer a))))); [apply rq_panic|].
-  apply rq_ok. split; simpl; auto. repeat split; simpl; auto.
+  simpl; psplit; simpl; auto. repeat split; simpl; auto.
 Qed.
 
 Lemma pt_checked_threshold_rel : forall k a b th,
@@ -306,8 +308,8 @@ Proof.
   intros k a b th (D & S & G & C1 & C2 & C3 & C4). unfold pt_checked_threshold.
   destruct (th_t th).
   - rewrite <- C3. destruct (pc_soft a); [apply rq_panic|]. destruct (is_bottom (th_val th)); [apply rq_panic|].
-    apply rq_ok; split; simpl; auto. repeat split; simpl; auto; apply S.
-  - apply rq_ok; split; simpl; auto. repeat split; simpl; auto; apply S.
+    simpl; psplit; simpl; auto. repeat split; simpl; auto; apply S.
+  - simpl; psplit; simpl; auto. repeat split; simpl; auto; apply S.
   - apply rq_panic.
 Qed.
 
@@ -318,7 +320,7 @@ Lemma pn_pt_op_rel : forall k A (RA : A -> A -> Prop) a b (f : ptracker -> res (
 Proof.
   intros k A RA a b f (P & V & S) HF. unfold pn_pt_op.
   eapply rq_bind; [apply HF; exact P|].
-  intros [ta xa] [tb xb] [H1 H2]; simpl in *. apply rq_ok. split; simpl; [unfold pn_rel; simpl; auto | auto].
+  intros [ta xa] [tb xb] [H1 H2]; simpl in *. simpl; psplit; [unfold pn_rel; simpl; auto | auto].
 Qed.
 
 (* ---------- proposal store ---------- *)
@@ -333,7 +335,7 @@ Lemma rn_read_staging_rel : forall k pl p a b,
 Proof.
   intros k pl p a b R. unfold rn_read_staging.
   eapply rq_bind; [apply (with_period_read_rel k _ pl p 0 a b (fun pn => pt_staging (pn_pt pn))); auto; apply pt_staging_rel|].
-  intros [a1 va] [b1 vb] [R1 E]; simpl in *. subst vb. apply rq_ok. split; simpl; auto.
+  intros [a1 va] [b1 vb] [R1 E]; simpl in *. subst vb. simpl; psplit; simpl; auto.
   destruct R1 as (S1 & _). rewrite S1. reflexivity.
 Qed.
 
@@ -350,9 +352,9 @@ Proof.
     apply pn_pt_op_rel; auto. intros ta tb T. apply pt_checked_vote_rel; auto.
   - intros [a1 ea] [b1 eb] [R1 E]; simpl in *.
     destruct ea as [|na| |prop ok]; destruct eb as [|nb| |prop' ok']; simpl in E; try discriminate;
-      try (apply rq_ok; split; simpl; auto; fail).
+      try (simpl; psplit; simpl; auto; fail).
     inversion E; subst prop' ok'. destruct R1 as (S1 & F1 & P1). rewrite S1.
-    apply rq_ok. split; simpl; auto. split; [|split]; simpl; auto.
+    simpl; psplit; simpl; auto. split; [|split]; simpl; auto.
 Qed.
 
 Lemma rn_store_payload_present_rel : forall pl a b pv,
@@ -370,11 +372,11 @@ Lemma rn_store_payload_verified_rel : forall k pl a b pv,
   rn_rel a b -> rq k (prel rn_rel eq) (rn_store_payload_verified pl a pv) (rn_store_payload_verified pl b pv).
 Proof.
   intros k pl a b pv R. pose proof R as (S & F & P). unfold rn_store_payload_verified. rewrite S.
-  destruct (aget value_eqb pv (ps_asm (rn_store b))) as [ea|]; [|apply rq_ok; split; auto].
-  destruct (as_assembled ea); [apply rq_ok; split; auto|].
+  destruct (aget value_eqb pv (ps_asm (rn_store b))) as [ea|]; [|simpl; psplit; auto].
+  destruct (as_assembled ea); [simpl; psplit; auto|].
   eapply rq_bind; [apply rn_staged_value_rel; apply rn_set_store_rel; exact R|].
   intros [a2 [sv c]] [b2 [sv' c']] [R2 E]; simpl in *. inversion E; subst.
-  destruct (value_eqb sv' pv); apply rq_ok; split; auto.
+  destruct (value_eqb sv' pv); simpl; psplit; auto.
 Qed.
 
 Lemma rn_store_new_period_rel : forall k pl a b target starting,
@@ -383,7 +385,7 @@ Proof.
   intros k pl a b target starting R. unfold rn_store_new_period.
   eapply rq_bind; [apply rn_staged_value_rel; exact R|].
   intros [a1 [sa ca]] [b1 [sb cb]] [R1 E]; simpl in *. inversion E; subst.
-  pose proof R1 as (S1 & _). rewrite S1. apply rq_ok. apply rn_set_store_rel; auto.
+  pose proof R1 as (S1 & _). rewrite S1. simpl. apply rn_set_store_rel; auto.
 Qed.
 
 Lemma rn_store_threshold_rel : forall k pl a b th,
@@ -394,7 +396,7 @@ Proof.
   - apply (with_period_rel k _ eq pl (th_per th) 0 a b); auto. intros pa pb P.
     apply pn_pt_op_rel; auto. intros ta tb T. apply pt_checked_threshold_rel; auto.
   - intros [a1 pa] [b1 pb] [R1 E]; simpl in *. subst pb. pose proof R1 as (S1 & _). rewrite S1.
-    destruct (as_assembled (ps_asm_get (rn_store b1) pa)); apply rq_ok; split; simpl; auto.
+    destruct (as_assembled (ps_asm_get (rn_store b1) pa)); simpl; psplit; simpl; auto.
     apply rn_set_store_rel; auto.
 Qed.
 
@@ -403,5 +405,5 @@ Lemma rn_store_read_lowest_rel : forall k pl a b per,
 Proof.
   intros k pl a b per R. unfold rn_store_read_lowest.
   eapply rq_bind; [apply (with_period_read_rel k _ pl per 0 a b (fun _ => tt)); auto|].
-  intros [a1 ua] [b1 ub] [R1 _]; simpl in *. apply rq_ok; auto.
+  intros [a1 ua] [b1 ub] [R1 _]; simpl in *. simpl; auto.
 Qed.
